@@ -3,8 +3,10 @@
 out=${1:-/root/.vp/scratch-thorough}
 mkdir -p $out
 export ZSYM_OUT_DIR=$out
+# private copy of the engine binary: rebuilding /verif/bin/zsym meanwhile does not disturb this run
+cp /verif/bin/zsym $out/zsym && export ZSYM_BIN=$out/zsym
 cd /verif
-for id in $(python3 -c "import json; print(' '.join(sorted(json.load(open('checks.json')).keys())))"); do
+for id in ${ZSYM_IDS:-$(python3 -c "import json; print(' '.join(sorted(json.load(open('checks.json')).keys())))")}; do
   t0=$(date +%s)
   ./check $id thorough > $out/$id.out 2>&1
   rc=$?
